@@ -1135,7 +1135,15 @@ def const_of(node, env, b=None):
             not (isinstance(node, ast.Name) and node.id in env):
         # only *constants by convention* (UPPER_CASE class / module names holding
         # strings) are folded: an instance attribute may shadow anything else
+        local_ = getattr(b, "_stored_names", None)
+        if local_ is None:
+            local_ = {x.id for x in ast.walk(b.f.node) if isinstance(x, ast.Name)
+                      and isinstance(x.ctx, ast.Store)} | set(b.f.params)
+            b._stored_names = local_
         for a in ast.walk(node):
+            if isinstance(a, ast.Name) and a.id in local_ and a.id not in env and \
+                    a.id not in ("self", "cls", getattr(b, "selfname", None)):
+                return UNKNOWN          # a local of this function, value unknown
             if isinstance(a, ast.Attribute) and a.attr != a.attr.upper():
                 return UNKNOWN
             if isinstance(a, ast.Name) and a.id not in env and a.id != a.id.upper() \
